@@ -24,9 +24,12 @@
 (*                  within the extent of the inputs                        *)
 (*   PiecesInside   (C12) every piece that a judgement places in an input  *)
 (*                  span's variable lies within that span's width          *)
-(*   Refines        (C14) the resulting spans are exactly Refined(P, Q)    *)
-(*   Components     (C14) every input span's variable is tied to exactly   *)
-(*                  the refined spans within it, re-based to its start     *)
+(*   Components     (C14) the resulting spans tile every input span        *)
+(*                  exactly, and the span's variable is tied to exactly    *)
+(*                  those spans, re-based to its start                     *)
+(*   Refines        the resulting spans are exactly Refined(P, Q): what    *)
+(*                  the code does today; a finer result would satisfy      *)
+(*                  every demand above, so this one is only counted        *)
 (***************************************************************************)
 EXTENDS Integers, Sequences, FiniteSets
 
@@ -57,12 +60,18 @@ Equated(out, a, b) == a = b \/ \E i \in 1..Len(out.eqs) : {out.eqs[i][1], out.eq
 PiecesInside(P, Q, out) ==
     \A s \in P \cup Q : \A J \in JudgedFor(out, Var(s)) : \A p \in J : Off(p) >= 0 /\ End(p) <= Size(s)
 
+RECURSIVE SumSizes(_)
+SumSizes(S) == IF S = {} THEN 0 ELSE LET x == CHOOSE x \in S : TRUE IN Size(x) + SumSizes(S \ {x})
+
 Components(P, Q, out) ==
     LET R == {out.spans[i] : i \in 1..Len(out.spans)} IN
     \A s \in P \cup Q :
         LET pieces == {r \in R : Inside(r, s)}
             rebased == {<<Off(r) - Off(s), Size(r), Var(r)>> : r \in pieces}
-        IN IF Cardinality(pieces) = 1
-           THEN (\E r \in pieces : Equated(out, Var(s), Var(r))) \/ rebased \in JudgedFor(out, Var(s))
-           ELSE rebased \in JudgedFor(out, Var(s))
+        IN \* the resulting spans within s tile it exactly (they do not overlap: WithinExtent), and none straddles its ends
+           /\ SumSizes(pieces) = Size(s)
+           /\ \A r \in R : Inside(r, s) \/ End(r) <= Off(s) \/ End(s) <= Off(r)
+           /\ (IF Cardinality(pieces) = 1
+               THEN (\E r \in pieces : Equated(out, Var(s), Var(r))) \/ rebased \in JudgedFor(out, Var(s))
+               ELSE rebased \in JudgedFor(out, Var(s)))
 ==============================================================================
